@@ -28,6 +28,16 @@ def ClassGeom.qubitLocation (g : ClassGeom) (rot : Bool) (q : Coord) : JV :=
 def ClassGeom.stabLocation (g : ClassGeom) (rot : Bool) (s : Coord) : JV :=
   finalLocation (g.stabEdits rot s ((g.stabType s).getD "")) (locJV s)
 
+/-- the primitive form of the hypotheses: every coordinate is represented successfully, completely and at
+    its location (for classes whose overrides are not plain assignments this is proved directly) -/
+structure Served (g : ClassGeom) (T : Tables) (name : String) : Prop where
+  wf : g.lat.WF
+  qubit_ok : ∀ rot, ∀ q ∈ g.lat.qubits, ∃ d, g.qubitRepr T rot q = .ok d ∧ descComplete d = true ∧
+    getKey d "location" = some (g.qubitLocation rot q)
+  stab_ok : ∀ rot, ∀ s ∈ g.lat.stabs, ∃ d, g.stabRepr T rot s = .ok d ∧ descComplete d = true ∧
+    getKey d "location" = some (g.stabLocation rot s)
+  deformation : name = "None" ∨ ∀ q ∈ g.lat.qubits, (g.deformation name q).isSome = true
+
 /-- C20 for one answer: one complete description per qubit and per stabilizer, the i-th one computed
     from (and located at) the i-th library coordinate, and the matrices of the generic assembly -/
 structure Faithful (g : ClassGeom) (T : Tables) (name : String) (rot : Bool) (p : Payload) : Prop where
@@ -104,8 +114,11 @@ theorem opKeys_sub (hwf : g.lat.WF) {q : Coord} (hq : q ∈ g.opKeys) : q ∈ g.
     exact (hwf.stab_supported s hs e he).1
   · exact (hwf.log_supported op hop e he).1
 
+theorem Servable.served (hs : Servable g T types name) : Served g T name :=
+  ⟨hs.wf, fun rot _ hq => hs.qubit_ok rot hq, fun rot _ hq => hs.stab_ok rot hq, hs.deformation⟩
+
 /-- the matrices of the payload -/
-theorem Servable.matrices (hs : Servable g T types name) :
+theorem Served.matrices (hs : Served g T name) :
     ∃ cd lz lx h, g.codeData name = .ok cd ∧ logicalsZ cd = some lz ∧ logicalsX cd = some lx ∧
       stabilizerMatrix cd = some h ∧
       (name = "None" → h = g.lat.rowsH ∧ lx = g.lat.rowsX ∧ lz = g.lat.rowsZ) ∧
@@ -143,28 +156,33 @@ theorem Servable.matrices (hs : Servable g T types name) :
     · rw [Deform.logicalsX_deform _ _ kX, hX]; rfl
     · rw [Deform.stabilizerMatrix_deform _ _ kS, hH]; rfl
 
-/-- **Every servable class is served faithfully.** -/
-theorem describeAll_faithful (hs : Servable g T types name) (rot : Bool) :
+/-- **Every served class is served faithfully.** -/
+theorem Served.faithful (hs : Served g T name) (rot : Bool) :
     ∃ p, g.describeAll T name rot = .ok p ∧ Faithful g T name rot p := by
   obtain ⟨qs, hq1, hq2, hq3⟩ := mapM_ok (g.qubitRepr T rot) g.lat.qubits
-    fun q hq => (hs.qubit_ok rot hq).imp fun _ h => h.1
+    fun q hq => (hs.qubit_ok rot q hq).imp fun _ h => h.1
   obtain ⟨ss, hs1, hs2, hs3⟩ := mapM_ok (g.stabRepr T rot) g.lat.stabs
-    fun s hq => (hs.stab_ok rot hq).imp fun _ h => h.1
+    fun s hq => (hs.stab_ok rot s hq).imp fun _ h => h.1
   obtain ⟨cd, lz, lx, h, hcd, hlz, hlx, hh, hund, hdef⟩ := hs.matrices
   refine ⟨⟨h, lx, lz, qs, ss⟩, ?_, ⟨hq2, hs2, ?_, ?_, hund, hdef⟩⟩
   · unfold ClassGeom.describeAll
     simp only [hq1, hs1, hcd, hlz, hlx, hh]
   · intro i hi hi'
-    obtain ⟨d, hd, hc, hl⟩ := hs.qubit_ok rot (List.getElem_mem hi)
+    obtain ⟨d, hd, hc, hl⟩ := hs.qubit_ok rot _ (List.getElem_mem hi)
     have := hq3 i hi hi'
     rw [hd] at this
     cases this
     exact ⟨hd, hc, hl⟩
   · intro i hi hi'
-    obtain ⟨d, hd, hc, hl⟩ := hs.stab_ok rot (List.getElem_mem hi)
+    obtain ⟨d, hd, hc, hl⟩ := hs.stab_ok rot _ (List.getElem_mem hi)
     have := hs3 i hi hi'
     rw [hd] at this
     cases this
     exact ⟨hd, hc, hl⟩
+
+/-- **Every servable class is served faithfully.** -/
+theorem describeAll_faithful (hs : Servable g T types name) (rot : Bool) :
+    ∃ p, g.describeAll T name rot = .ok p ∧ Faithful g T name rot p :=
+  hs.served.faithful rot
 
 end Panqec.GuiRepr
